@@ -254,6 +254,13 @@ func (e *absEval) eval(v ssa.Value, path *absPath, depth int) absVal {
 				return a
 			}
 		}
+		// error constructors never return nil
+		if o := ssaCalleeObj(x); o != nil {
+			switch objPkgPath(o) + "." + o.Name() {
+			case "fmt.Errorf", "errors.New":
+				return aNonNil
+			}
+		}
 		return e.evalCall(x, 0, path, depth)
 	case *ssa.Extract:
 		if c, ok := x.Tuple.(*ssa.Call); ok {
